@@ -96,7 +96,8 @@ def extra(local, sc, cfg, sr, hev, wire, out):
 
 def run(tier, seed, model_ok=True):
     res = C.Result()
-    res.rule = ("three families: (a) one sender, k messages to one destination with total bytes steered to capacity-40/-1/+0/+1/+40; (b) pure producers flooding with "
+    res.rule = ("[a quarter of the generated scenarios also run barriers of a SECOND ygm::comm living in the same process between the epochs; its events are removed from the judged history] " +
+                "three families: (a) one sender, k messages to one destination with total bytes steered to capacity-40/-1/+0/+1/+40; (b) pure producers flooding with "
                 "starved/late completions and rendezvous sends; (c) general scenarios with handler-side sends; capacities 0/1/4(/16/64) KB; distinct = (config, shape)")
     res.assumptions = ["completion delays are simmpi scheduler choices", "counters read through the YGM_VERIF_HOOKS instrumentation"]
     binary, err = C.build_harness("traffic")
